@@ -236,6 +236,21 @@ fn pairs(cfg: &Cfg, seeded: bool) -> Vec<Pair> {
             same_public: false,
         });
     }
+    // the same promise at another position of the aggregate (a statement is a VECTOR of promises: where one sits matters)
+    if cfg.m >= 2 && base.values[0] >= 1 && base.values[1] >= 1 {
+        let mut wa = base.clone();
+        wa.promises[0] = Some(1);
+        wa.promises[1] = None;
+        let mut wb = base.clone();
+        wb.promises[0] = None;
+        wb.promises[1] = Some(1);
+        out.push(Pair {
+            name: "promise moved to another position".into(),
+            a: (*cfg, wa, CTX_A, std_pc.clone()),
+            b: (*cfg, wb, CTX_A, std_pc.clone()),
+            same_public: false,
+        });
+    }
     // bit length
     if cfg.n < 64 {
         let c2 = Cfg::new(cfg.n * 2, cfg.m, cfg.c, cfg.d);
@@ -398,7 +413,7 @@ pub fn run(rep: &mut Report) {
     rep.rule = "RNG fault models {all-zero, constant 0x5a, period-2, replayed stream} x configurations (aggregation <= 2 of the lattice) x \
                 seed {absent, present} x run pairs differing in exactly one of: witness value with the same commitment (H = G_0), witness \
                 blinding components (a,b) with the same commitment (G_b = G_a, every pair), transcript context, one commitment, one \
-                promise, bit length, one blinding generator; oracle: the RNG-derived nonces of the two runs (transcript-RNG outputs) share \
+                promise, the position of a promise, bit length, one blinding generator; oracle: the RNG-derived nonces of the two runs (transcript-RNG outputs) share \
                 no element (all pairs), identical runs are bit-identical (also right after a refused proving attempt on the same thread), nonces within a run stay distinct, and on the merlin trace every \
                 RNG a nonce is drawn from was built after the latest absorbed message, keyed with the complete witness serialisation \
                 and finalised with external randomness; on ordinary generators (5 configurations x 4 fault models) every RNG-derived nonce read back from the proof \
